@@ -113,7 +113,17 @@ function recorded() {
   }
   return RECORDED;
 }
+// indices from WS_BASE on denote "history <index - WS_BASE> in workspace mode"; histories whose project has no
+// package under node_modules are skipped there (null)
+const WS_BASE = 2e9;
 function genRun(index) {
+  if (index >= WS_BASE) {
+    const run = genRun(index - WS_BASE);
+    if (!run || !run.project || !Object.keys(run.project.files).some((f) => /\/node_modules\/[^/]+\/index\.ts$/.test(f))) return null;
+    run.__ws = true;
+    run.ops = [...run.ops, { op: "ws_edit" }, { op: "checkpoint" }];
+    return run;
+  }
   if (index >= REC_BASE) return recorded()[index - REC_BASE];
   const out = execFileSync(SIM, ["gen", process.env.E2E_MODE === "oneshot" ? "C10" : "C14", String(index)], { encoding: "utf8", maxBuffer: 1 << 28, env: { ...process.env, VERIF_SEED: String(ROOT) } });
   return JSON.parse(out);
@@ -134,7 +144,42 @@ async function execHistory(T, run, base) {
     fs.mkdirSync(path.dirname(abs(f)), { recursive: true });
     fs.writeFileSync(abs(f), c);
   };
-  for (const [f, c] of Object.entries(run.project.files)) put(f, c);
+  // WORKSPACE MODE (run.__ws): every package under node_modules is a symbolic link to a sibling directory
+  // `ws_<pkg>` (what yarn / pnpm workspaces lay out), and the entry file also reaches the package's index file by a
+  // RELATIVE path - one file on disk, two spellings, two slots in the session's module cache, two watchers
+  const ws = { on: !!run.__ws, pkgIndex: null, name: null, spec: null };
+  if (ws.on) {
+    const idx = Object.keys(run.project.files).filter((f) => /\/node_modules\/[^/]+\/index\.ts$/.test(f)).sort()[0];
+    const m = idx && /^(.*)\/node_modules\/([^/]+)\/index\.ts$/.exec(idx);
+    const name = idx && (/export\s+(?:type|interface)\s+([A-Za-z_][A-Za-z0-9_]*)/.exec(run.project.files[idx]) || [])[1];
+    if (m && name) {
+      ws.pkgIndex = idx;
+      ws.name = name;
+      let rel = path.relative(path.dirname(run.project.entry), m[1] + "/ws_" + m[2] + "/index");
+      ws.spec = rel.startsWith(".") ? rel : "./" + rel;
+    }
+  }
+  const viaWs = (f, c) => {
+    if (!ws.spec || f !== run.project.entry || typeof c !== "string" || !c.includes("buildParsers<{")) return c;
+    return c.replace("buildParsers<{", "buildParsers<{ LegRel: LegRel; ") + `\nimport { ${ws.name} as LegRel_${ws.name} } from "${ws.spec}";\nexport type LegRel = { viaRelativePath: LegRel_${ws.name} };\n`;
+  };
+  for (const [f, c] of Object.entries(run.project.files)) put(f, viaWs(f, c));
+  if (ws.on) {
+    for (const f of Object.keys(run.project.files)) {
+      const m = /^(.*)\/node_modules\/([^/]+)\//.exec(f);
+      if (!m) continue;
+      const pkgDir = path.join(root, m[1], "node_modules", m[2]);
+      try {
+        if (fs.lstatSync(pkgDir).isSymbolicLink()) continue;
+      } catch {
+        continue;
+      }
+      const target = path.join(root, m[1], "ws_" + m[2]);
+      fs.renameSync(pkgDir, target);
+      fs.symlinkSync(target, pkgDir, "dir");
+      res.linked = (res.linked || 0) + 1;
+    }
+  }
   const proj = { parser: path.relative(root, abs(run.project.entry)), outputDir: "e2e_out", stringFormats: run.project.settings.string_formats.map((name) => ({ name })), numberFormats: run.project.settings.number_formats.map((name) => ({ name })) };
   if (run.project.module && run.project.module !== "esm") proj.module = run.project.module;
   fs.writeFileSync(path.join(root, "beff.json"), JSON.stringify(proj));
@@ -223,15 +268,39 @@ async function execHistory(T, run, base) {
     await settle();
     const handed = new Map(); // file -> text last handed over by a change event
     let dirtySinceBuild = false;
-    const watched = (f) => (globalThis.__watchers || []).filter((w) => w.path === abs(f) && w.ev === "change");
-    const fire = async (f) => {
-      const ws = watched(f);
-      if (!ws.length) return false;
-      const before = globalThis.__builds;
+    // a save reaches every watcher whose watched path leads to the saved file (by real path), each listener being
+    // called with the path that was handed to watch() - what the real library does with a file that is watched
+    // under two spellings
+    const realOf = (p) => {
       try {
-        ws[0].cb(abs(f));
-      } catch (e) {
-        viol("watch-loop-dies-of-an-error-it-does-not-catch", { file: f, error: String(e && e.message).slice(0, 200) });
+        return fs.realpathSync(p);
+      } catch {
+        return p;
+      }
+    };
+    const watched = (f) => {
+      const r = ws.on ? realOf(abs(f)) : null;
+      const seen = new Set();
+      return (globalThis.__watchers || []).filter((w) => {
+        if (w.ev !== "change" || seen.has(w.path)) return false;
+        if (w.path === abs(f) || (ws.on && realOf(w.path) === r)) {
+          seen.add(w.path);
+          return true;
+        }
+        return false;
+      });
+    };
+    const fire = async (f) => {
+      const wl = watched(f);
+      if (!wl.length) return false;
+      if (wl.length > 1) res.saves_seen_under_two_spellings = (res.saves_seen_under_two_spellings || 0) + 1;
+      const before = globalThis.__builds;
+      for (const w of ws.on ? wl : wl.slice(0, 1)) {
+        try {
+          w.cb(ws.on ? w.path : abs(f));
+        } catch (e) {
+          viol("watch-loop-dies-of-an-error-it-does-not-catch", { file: f, error: String(e && e.message).slice(0, 200) });
+        }
       }
       await settle();
       res.events++;
@@ -242,8 +311,20 @@ async function execHistory(T, run, base) {
     for (let i = 0; i < run.ops.length; i++) {
       const op = run.ops[i];
       if (op.op === "write") {
-        put(op.f, op.content);
+        put(op.f, viaWs(op.f, op.content));
         dirtySinceBuild = true;
+      } else if (op.op === "ws_edit") {
+        // the package's index file is saved with its first exported alias widened (one save, one file on disk)
+        if (ws.pkgIndex && fs.existsSync(abs(ws.pkgIndex))) {
+          const cur = fs.readFileSync(abs(ws.pkgIndex), "utf8");
+          const ed = cur.replace(/export type ([A-Za-z_][A-Za-z0-9_]*) = /, (m0) => m0 + "null | ");
+          if (ed !== cur) {
+            put(ws.pkgIndex, ed);
+            dirtySinceBuild = true;
+            res.ws_edits = (res.ws_edits || 0) + 1;
+            await fire(ws.pkgIndex);
+          }
+        }
       } else if (op.op === "write_prefix") {
         put(op.f, op.content.slice(0, op.k));
         dirtySinceBuild = true;
@@ -264,7 +345,7 @@ async function execHistory(T, run, base) {
             continue;
           }
           const disk = fs.readFileSync(abs(f), "utf8");
-          if (handed.has(f) ? handed.get(f) !== disk : disk !== run.project.files[f]) await fire(f);
+          if (handed.has(f) ? handed.get(f) !== disk : disk !== viaWs(f, run.project.files[f])) await fire(f);
         }
         if (!comparable) continue;
         if (dirtySinceBuild) {
@@ -479,6 +560,10 @@ async function worker(from, to, explicitFile) {
         out("R " + i + " " + JSON.stringify({ violations: [], skipped: "generator failed" }));
         continue;
       }
+      if (run === null) {
+        out("S " + i);
+        continue;
+      }
       const r = process.env.E2E_MODE === "oneshot" ? await execOneShot(T, run, base) : await execHistory(T, run, base);
       if (r.violations.length) r.run = run;
       out("R " + i + " " + JSON.stringify(r));
@@ -549,7 +634,7 @@ const ONESHOT = process.env.E2E_MODE === "oneshot";
 const PROP = ONESHOT ? "C10" : "C14";
 const N = Number(process.env.E2ELEG_RUNS || (ONESHOT ? (tier === "quick" ? 240 : 8000) : tier === "quick" ? 400 : 20000));
 const t0 = Date.now();
-const agg = { ran: true, histories: 0, checkpoints: 0, compared_with_a_fresh_one_shot_process: 0, change_events: 0, builds_in_watch_sessions: 0, skipped_because_the_compiler_panicked: 0, skipped_other: 0, stalled: [], violations: [] };
+const agg = { ran: true, workspace_mode: { what: "histories whose project has a package under node_modules, executed once more with the package laid out as a symbolic link to a sibling directory (a workspace) and the entry file reaching the package's index file by a relative path as well: one file on disk under two spellings; a save reaches every watcher whose path leads to the file; the leg adds one save of the package's index file (first exported alias widened) and a checkpoint at the end", histories: 0, scanned_without_a_package: 0, packages_laid_out_as_symbolic_links: 0, saves_that_reached_watchers_under_two_spellings: 0, package_saves_added_by_the_leg: 0, compared: 0 }, histories: 0, checkpoints: 0, compared_with_a_fresh_one_shot_process: 0, change_events: 0, builds_in_watch_sessions: 0, skipped_because_the_compiler_panicked: 0, skipped_other: 0, stalled: [], violations: [] };
 const first = new Map();
 let notRunnable = null;
 // the histories are spread over a few worker processes (each with its own host evaluation, scratch directory and
@@ -559,6 +644,11 @@ async function runRange(lo, hi) {
   while (from < hi && !notRunnable && agg.stalled.length <= 5) {
     const r = await runWorker(from, hi, (line) => {
       if (line.startsWith("X ")) notRunnable = JSON.parse(line.slice(2)).reason;
+      if (line.startsWith("S ")) {
+        from = Number(line.slice(2)) + 1;
+        agg.workspace_mode.scanned_without_a_package++;
+        return;
+      }
       if (!line.startsWith("R ")) return;
       const sp = line.indexOf(" ", 2);
       const idx = Number(line.slice(2, sp));
@@ -568,6 +658,13 @@ async function runRange(lo, hi) {
       agg.compared_with_a_fresh_one_shot_process += res.compared || 0;
       agg.change_events += res.events || 0;
       agg.builds_in_watch_sessions += res.builds || 0;
+      if (idx >= WS_BASE) {
+        agg.workspace_mode.histories++;
+        agg.workspace_mode.packages_laid_out_as_symbolic_links += res.linked || 0;
+        agg.workspace_mode.saves_that_reached_watchers_under_two_spellings += res.saves_seen_under_two_spellings || 0;
+        agg.workspace_mode.package_saves_added_by_the_leg += res.ws_edits || 0;
+        agg.workspace_mode.compared += res.compared || 0;
+      }
       if (res.skipped) {
         if (/panicked/.test(res.skipped)) agg.skipped_because_the_compiler_panicked++;
         else {
@@ -594,8 +691,12 @@ async function runRange(lo, hi) {
 const W = Math.max(1, Math.min(Number(process.env.VERIF_WORKERS || 8), 8, N));
 const per = Math.ceil(N / W);
 const R = ONESHOT || process.env.E2ELEG_RUNS ? 0 : recorded().length;
+// workspace mode scans the first WS_SCAN histories for projects with a package
+const WS_SCAN = ONESHOT ? 0 : Number(process.env.E2ELEG_WS_SCAN || (process.env.E2ELEG_RUNS ? 0 : tier === "quick" ? 2400 : 60000));
+const wsPer = Math.ceil(WS_SCAN / W) || 1;
 agg.recorded_histories_replayed = R;
 await Promise.all([...Array.from({ length: W }, (_, k) => runRange(k * per, Math.min(N, (k + 1) * per))), ...(R ? [runRange(REC_BASE, REC_BASE + R)] : [])]);
+if (WS_SCAN) await Promise.all(Array.from({ length: W }, (_, k) => runRange(WS_BASE + k * wsPer, WS_BASE + Math.min(WS_SCAN, (k + 1) * wsPer))));
 agg.stalled.sort((a, b) => a - b);
 if (notRunnable) {
   agg.ran = false;
